@@ -88,6 +88,12 @@ def plans(draw):
                     'timeout_ms': draw(st.sampled_from([None, None, 20, 50])), 'via_dispatcher': draw(st.booleans())})
   for p in ports:
     servers.setdefault(str(p), {'connect': [], 'requests': [], 'timeline': []})
+  if stack == 'thrift' and hop in ('wire', 'mixed') and draw(st.sampled_from([False, False, True])):
+    # the peer's window fills after a few bytes of a request and the write blocks for a while (serial stack only:
+    # its deadline timer interrupts the blocked write; a mux frame half-written at the deadline cannot be recalled)
+    servers[str(ports[0])]['stall'] = {'conn': draw(st.integers(0, 1)), 'send_index': draw(st.integers(0, 2)),
+                                       'cut': draw(st.sampled_from([1, 4, 10, 18])),
+                                       'for_ms': draw(st.sampled_from([5, T - 5, T + 10, 2 * T]))}
   return {
       'seed': draw(st.integers(0, 2 ** 16)), 'stack': stack, 'iface': 'hello', 'hop': hop,
       'client_id': None, 'balancer': draw(st.sampled_from(['default', 'heap'])), 'pool': pool,
@@ -95,6 +101,8 @@ def plans(draw):
       'serverset': {'kind': 'uri', 'initial': ports, 'events': []},
       'servers': servers, 'calls': calls, 'gate': gate,
       'run_ms': 6 * T + 300, 'close_at': None,
+      # the state of a long-lived mux connection: tag counter at a high-water mark, a few low tags recycled
+      'tag_state': draw(st.sampled_from([None, None, [254, []], [255, [2]], [4095, []], [65534, []], [65537, [2, 3]], [2 ** 23 + 1, []]])) if stack == 'thriftmux' else None,
   }
 
 
